@@ -10,6 +10,10 @@ observed only through the behaviour of later requests. Families (each enumerated
      + one probe resource per pin; all histories of length 2 (3 thorough)
   D2 override algebra: shape x declared directions, full dir x xdr override alphabet; all histories of length 2
   X  dangling connector references inside a subsignal resource
+  XC connector chains (string / dict forms, depth 1..3) whose entries dead-end in a gap of / past the end of / in an
+     undefined pin of the parent or grandparent, used by Pins and DiffPairs (p / n side) of width 1..2: must be refused,
+     allocation unchanged. General invariant on every granted request of every family: all pin names carried by the
+     returned ports (and all constraint-file pins) are physical pins of the platform
   E  end to end: prepare() on iCE40/IceStorm (.pcf), ECP5/Trellis (.lpf), Gowin/Apicula (.cst): request sequences
      executed inside elaborate(), constraint files parsed, compared with the top-level ports of the emitted RTLIL
   EC every declared clock of G.CLOCKS (fractional / sub-MHz / period-given) + a clock on the internal net "vf$netclk"
@@ -130,6 +134,46 @@ def _check_granted(rm, obj, node, merged, cmap, flags):
     return errs, ports
 
 
+_PHYS = {}
+
+
+def _phys_of(table):
+    hit = _PHYS.get(id(table))
+    if hit is None or hit[0] is not table:
+        if len(_PHYS) > 4000:
+            _PHYS.clear()
+        hit = _PHYS[id(table)] = (table, R.physical_pins(table))
+    return hit[1]
+
+
+def _non_physical_names(rm, obj, phys):
+    """general invariant, independent of the verdict: every pin name carried by any I/O port reachable from a granted
+    object (port groups, single-ended / differential ports, pin objects through iter_pins) is a declared physical pin"""
+    from amaranth.lib import io
+    pinmap = None
+    bad, stack, seen = [], [obj], 0
+    while stack and seen < 64:
+        o = stack.pop()
+        seen += 1
+        if isinstance(o, io.SingleEndedPort):
+            iops = [o.io]
+        elif isinstance(o, io.DifferentialPort):
+            iops = [o.p, o.n]
+        else:
+            iops = []
+            if pinmap is None:
+                pinmap = {id(pin): port for pin, port, _buf in rm.iter_pins()}
+            if id(o) in pinmap:
+                stack.append(pinmap[id(o)])
+            elif hasattr(o, "__dict__") and type(o).__name__ == "PortGroup":
+                stack.extend(vars(o).values())
+        for iop in iops:
+            for m in iop.metadata:
+                if m is not None and (m.name not in phys or ":" in m.name):
+                    bad.append(m.name)
+    return bad
+
+
 def _depth(name, cmap):
     d = 0
     while ":" in name and name in cmap:
@@ -151,6 +195,10 @@ def run_history(table, history, rm=None, on_grant=None, objs=None, static=None):
         verdict, why, merged = ref.expect(a)
         ok, obj, cls, is_re = _request(rm, a)
         out["steps"] += 1
+        if ok:
+            bad = _non_physical_names(rm, obj, _phys_of(table))
+            if bad:
+                out["port_errs"].append((i, [f"non-physical: granted port carries pin names {bad} that are not physical pins of the platform"]))
         if not R.verdict_ok(verdict, ok, is_re):
             out["mismatch"] = {"step": i, "want": verdict, "why": why, "got": "granted" if ok else cls}
             return out
@@ -185,7 +233,7 @@ def _sig(fam, table, prefix, kind):
 def _actions_for(fam, table, quick):
     if fam == "S":
         return G.s_actions(table)
-    if fam in ("D1", "X"):
+    if fam in ("D1", "X", "XC"):
         return G.d1_actions(table)
     if fam == "D2":
         return G.d2_actions(table, quick)
@@ -412,8 +460,6 @@ def run_e2e(kind, table, history, net_clock=None):
         res["errs"].append(("prepare-raises", f"prepare() raised {type(e).__name__}"))
         return res
     res["hist"] = box["hist"]
-    if box["hist"]["mismatch"]:
-        return res
     files = {k: (v if isinstance(v, str) else v.decode()) for k, v in plan.files.items()}
     loc, attrs_got, freq, escaped_names = [], [], [], False
     try:
@@ -434,6 +480,12 @@ def run_e2e(kind, table, history, net_clock=None):
         return res
     if not has_clocks:
         freq = None
+    phys = _phys_of(table)                  # general invariant: a constraint file only ever names physical pins
+    for bit, pin in loc:
+        if pin not in phys or ":" in pin:
+            res["errs"].append(("non-physical-pin", f"constraint file assigns {bit} to {pin!r}, which is not a physical pin of the platform"))
+    if box["hist"]["mismatch"]:
+        return res
     # observed: name of the IOPort objects handed out for granted leaves; declared: their pins (reference)
     cmap = R.connector_map(table)
     decl, clocks, decl_attrs = {}, {}, {}
@@ -566,7 +618,7 @@ def w_e2e(task):
                 viol.append((k, text))
             if not viol:
                 cov["traces_validated_against_impl"] += 1
-            for k, text in viol[:2]:
+            for k, text in viol[:3]:
                 cov["mismatches"] += 1
                 if nv < MAX_V_PER_TABLE:
                     nv += 1
@@ -618,6 +670,7 @@ def families(rep):
     fam["D1"] = (d1, rep.pick(2, 3))
     fam["D2"] = (G.d2_tables(), 2)
     fam["X"] = (G.x_tables(), 3)
+    fam["XC"] = (G.xc_tables(), rep.pick(2, 3))          # connector chains (string / dict forms) with dead ends at every hop
     # end to end: 1-/2-resource structures and the 3-resource ones over P1/G11 (every permutation of every subset of
     # the resources), plus decoration tables (clocks / attrs / connector depth / inversion; permutations of <=2 of
     # r and its probes). The quick tier takes every 12th / 450th table of these lists (fixed stride, no randomness).
@@ -633,6 +686,9 @@ def families(rep):
     et = ec + [({**t, "resources": t["resources"][:1]}, 1, G.CLOCKS[k % len(G.CLOCKS)]) for k, t in enumerate(d1[::300 if q else 40])]
     fam["ET"] = (et, None)
     fam["E"] = ((e_tables[::12] + e_d1[::450] if q else e_tables + e_d1[::40]) + ec, None)
+    # dead-end connector chains end to end (every 37th XC table; thorough: every 7th): the refused resource must leave no
+    # trace in the constraint files, which may only name physical pins
+    fam["E"] = (fam["E"][0] + [(t, 2) for t in fam["XC"][0][5::37 if q else 7]], None)
     return fam
 
 
@@ -640,12 +696,12 @@ def run(rep):
     _self_test()
     fam = families(rep)
     tasks = []
-    for name in ("S", "S4", "D1", "D2", "X"):
+    for name in ("S", "S4", "D1", "D2", "X", "XC"):
         if name not in fam:
             continue
         tables, L = fam[name]
         f = "S" if name == "S4" else name
-        per = {"S": 8, "S4": 2, "D1": 100, "D2": 1, "X": 4}[name]
+        per = {"S": 8, "S4": 2, "D1": 100, "D2": 1, "X": 4, "XC": 80}[name]
         for ch in chunks(tables, per):
             tasks.append(("hist", (f, ch, L, rep.quick)))
     e_tables, _ = fam["E"]
